@@ -74,7 +74,7 @@ func main() {
 		"(registered fields set with density 15-100 %, custom maps of 0-8 keys: ~40 % registered names, ~7 % ASCII case variants, ~8 % Unicode-fold variants, rest foreign; actors nested 0-6) -> Marshal -> JSON-level reference -> Unmarshal -> compare -> new registered values -> Marshal -> JSON-level reference; " +
 		"part 2 (finite, enumerated completely): catalogue of JSON forms x every registered field of 9 types (incl. RequestObject), also inside address and nested actors, as whole document, malformed documents, actors nested 6..10001, and the 7 leaf decoders directly; " +
 		"part 3: generated documents of 1-10 members (documented / hostile forms per field kind, custom members, case variants, duplicate keys, white space); " +
-		"part 4: AES seal/open over arbitrary byte strings, keys of 16/24/32 bytes, every bad key length 0..40, four other keys per case, eight classes of malformed sealed strings, op.NewAESCrypto. " +
+		"part 4: AES seal/open over arbitrary byte strings, keys of 16/24/32 bytes, every bad key length 0..40, a positional other-key sweep per case (one flipped bit and one replaced byte at every key byte, shared 8/16/24-byte prefixes, shared last 16 bytes, unrelated, cross-length) for crypto.DecryptAES and for op.NewAESCrypto, eight classes of malformed sealed strings, op.NewAESCrypto. " +
 		"distinct = distinct vectors (part 1: type, collision classes x set/unset, actor depth, decoded|grey-error; part 2: type, position, field, form; part 3: type, twist, first three field kinds, errored; part 4: class, key length, plaintext length bucket) that reached the deciding step")
 	run.Assume(
 		"JSON-level reference = encoding/json into map[string]any with UseNumber; BCP 47 reference = golang.org/x/text/language; RFC 3339 and number references are the harness's own (math/big, civil-date arithmetic)",
@@ -125,7 +125,7 @@ func main() {
 	}
 	run.Mandatory("override:exact-collision-with-set-claim", "override:second-generation")
 	run.Mandatory(mandatoryTolerant...)
-	run.Mandatory("aes:roundtrip:key16", "aes:roundtrip:key24", "aes:roundtrip:key32", "aes:wrong-key", "aes:bad-key-length", "aes:malformed-input", "aes:op-crypto")
+	run.Mandatory("aes:roundtrip:key16", "aes:roundtrip:key24", "aes:roundtrip:key32", "aes:wrong-key", "aes:wrong-key:crypto.DecryptAES", "aes:wrong-key:op.NewAESCrypto", "aes:bad-key-length", "aes:malformed-input", "aes:op-crypto")
 
 	const workers = 16
 	tallies := make([]*tally, workers)
